@@ -20,10 +20,10 @@ Relevant files: {', '.join(p['anchors']['files'])}
 Requirements for the change:
 - It must be a plausible maintenance mistake or misguided "optimisation"/"cleanup" in the akita source (non-test .go files), small (ideally 1-15 changed lines, possibly in two cooperating places that each look fine alone).
 - It must need something SPECIFIC to manifest: a particular interleaving, a multi-step sequence of operations, an unusual-but-legal input or configuration, a crash/fault at a particular point, or two cooperating sites. Do NOT make a change that ordinary use exposes at once or that any existing test catches.
-- The repo must still build (`go build ./...`) and the existing tests of the packages you touched, and of packages that depend on them, must still pass. Environment for every shell call: `export GOFLAGS=-mod=mod GOPROXY=off GOSUMDB=off GOTOOLCHAIN=local PATH=/root/go/pkg/mod/golang.org/toolchain@v0.0.1-go1.26.2.linux-amd64/bin:$PATH` (the default go on PATH is too old and cannot download a toolchain) and run go from inside the worktree (cd {wt}). There is no network. Some test packages do not compile even without your change (missing generated mocks: e.g. tracing, noc/directconnection, noc/networking/switching/*): ignore those; compare against the unmodified behaviour with `git stash` if unsure.
+- The repo must still build (`go build ./...`) and the existing tests of the packages you touched, and of packages that depend on them, must still pass. Environment for every shell call: `export GOFLAGS=-mod=mod GOPROXY=off GOSUMDB=off GOTOOLCHAIN=local PATH=/root/go/pkg/mod/golang.org/toolchain@v0.0.1-go1.26.2.linux-amd64/bin:$PATH` (the default go on PATH is too old and cannot download a toolchain) and run go from inside the worktree (cd {wt}). There is no network. Some test packages do not compile even without your change (missing generated mocks: e.g. tracing, noc/directconnection, noc/networking/switching/*): ignore those; compare against the unmodified behaviour by reverse-applying your diff if unsure (NEVER use `git stash`: the stash is shared between all worktrees of this repository and other agents are working in sibling worktrees; use `git diff > /tmp/<unique>.diff; git apply -R /tmp/<unique>.diff; ...; git apply /tmp/<unique>.diff`).
 - {('Hint on which aspect to attack: ' + hint) if hint else 'Pick whichever clause of the statement you find most interesting to break; prefer one that is anchored in the listed files.'}
 
-Demonstration: a Go test file (new *_test.go file placed in the appropriate package directory inside the worktree, using only the standard library and packages already in go.mod, e.g. testing) that FAILS with your change and PASSES without it (verify both: run it, then `git stash` the source change — keeping the test file — run again, then `git stash pop`). Keep it self-contained and fast (<30 s).
+Demonstration: a Go test file (new *_test.go file placed in the appropriate package directory inside the worktree, using only the standard library and packages already in go.mod, e.g. testing) that FAILS with your change and PASSES without it (verify both: run it, then reverse-apply the source change with `git apply -R` — keeping the test file — run again, then re-apply it; do not use git stash). Keep it self-contained and fast (<30 s).
 
 Deliverables, all under {wt}/_seed/ (create the directory):
 - patch.diff : `git diff` of the source change ONLY (not the demo test), relative to the worktree root, produced with `git diff -- . ':(exclude)_seed' ':(exclude)**/*_demo_test.go'` or equivalent. Name your demo test file with the suffix _demo_test.go so it is easy to exclude.
